@@ -51,6 +51,8 @@ G_OPS = HEAD + [(2, f"(?:{WORD}|{ODD1})"), (0, SP), (3, f"(?:{OPS}|{WORD}|{JCC}{
 G_OPS_HINT = HEAD + [(2, JCC), (0, ",p[tn]"), (0, SP), (3, f"(?:{OPS})"), (0, TAIL)]
 # instruction line consisting of one token
 G_NOOPS = HEAD + [(2, WORD), (0, " {0,8}")]
+# C16 is about presentation EDITS: a '# comment' may be added to an operand-less instruction as well
+G_NOOPS_COMMENT = HEAD + [(2, WORD), (0, rf" {{1,8}}{COMMENT}")]
 G_OPS_NOBYTES = HEAD_NOBYTES + G_OPS[len(HEAD):]
 G_OPS_HINT_NOBYTES = HEAD_NOBYTES + G_OPS_HINT[len(HEAD):]
 G_NOOPS_NOBYTES = HEAD_NOBYTES + G_NOOPS[len(HEAD):]
@@ -88,6 +90,7 @@ def sample_classes():
             out[f"noops/{k}"] = HEAD + [(2, t), (0, " {0,8}")]
     for k, t in HINT_ALTS.items():
         out[f"hint/{k}"] = HEAD + [(2, t), (0, ",p[tn]"), (0, SP), (3, OPS), (0, TAIL)]
+    out["noops/with_comment"] = G_NOOPS_COMMENT
     out["ops/prefixed_hint"] = HEAD + [(2, "(?:bnd|cs|ds|repz|rex\\.W)"), (0, " "), (3, f"{JCC},p[tn]"), (0, TAIL)]
     return out
 
